@@ -290,6 +290,25 @@ Definition w_cond_top_level_or : tree :=
       TNode KState 2 None [] [] [] []
         []].
 
+(* restored-without-ancestors: s4 -> deep history of its active ancestor s1: the shallow history of s2 has just recorded s3 into the shared history array, so the deep history looks recorded and restores s3 without s2; FastMicroStep adds the ancestors of s3's completion and so enters s2, the emitted model does not *)
+Definition w_restored_without_ancestors : tree :=
+  TNode KScxml 0 None [] [] [] []
+    [
+      TNode KState 1 None [] [[(IRaise 120 [101])]] [] []
+        [
+          TNode KHistDeep 8 None [{| tt_vid := 110; tt_event := None; tt_cond := None; tt_targets := Some [2]; tt_internal := false; tt_body := [] |}] [] [] []
+            [];
+
+          TNode KState 2 None [] [] [] []
+            [
+              TNode KHistShallow 9 None [{| tt_vid := 111; tt_event := None; tt_cond := None; tt_targets := Some [3]; tt_internal := false; tt_body := [] |}] [] [] []
+                [];
+
+              TNode KState 3 None [] [] [] []
+                [
+                  TNode KState 4 None [{| tt_vid := 101; tt_event := Some [101]; tt_cond := None; tt_targets := Some [8]; tt_internal := false; tt_body := [] |}] [] [] []
+                    []]]]].
+
 (* targetless: target-less transition *)
 Definition w_targetless : tree :=
   TNode KScxml 0 None [] [] [] []
@@ -373,6 +392,16 @@ Proof. exists w_history_below_deep_history, 30, 60. refute. Qed.
 (* a condition with `||` at top level and no outer parentheses enables the transition for any event *)
 Lemma cond_top_level_or_refuted : exists t fp ff, ~ behaviour_preserved pml_as_written t 7 13 fp ff.
 Proof. exists w_cond_top_level_or, 20, 40. refute. Qed.
+(* not a deviation from the interpreter's default engine (LargeMicroStep shows the same), but from the fast engine:
+   a state restored by a history record is entered without its ancestors *)
+Definition pml_guarded_only : pml_variant :=
+  {| pv_in_reads_root := false; pv_initial_break := false; pv_deep_unnegated := false; pv_hist_parent_test := false;
+     pv_hist_or := false; pv_hist_covered := false; pv_hist_inner_first := false; pv_found_stale := false;
+     pv_cond_bare := false; pv_completion_guarded := true; pv_trie := tv_repaired |}.
+Lemma restored_without_ancestors_refuted : exists t fp ff, ~ behaviour_preserved pml_guarded_only t 7 13 fp ff.
+Proof. exists w_restored_without_ancestors, 20, 40. refute. Qed.
+Lemma restored_without_ancestors_unguarded : behaviour_preserved pml_repaired w_restored_without_ancestors 7 13 20 40.
+Proof. holds. Qed.
 (* a document without transitions: the model never comes to rest, the interpreter goes idle after the initial step *)
 Lemma no_transitions_refuted : exists t fp ff, ~ behaviour_prefix pml_as_written t 7 13 fp ff.
 Proof.
@@ -384,7 +413,7 @@ Qed.
 Definition with_switch_off (k : nat) : pml_variant :=
   {| pv_in_reads_root := negb (k =? 0); pv_initial_break := negb (k =? 1); pv_deep_unnegated := negb (k =? 2);
      pv_hist_parent_test := negb (k =? 3); pv_hist_or := negb (k =? 4);
-     pv_hist_covered := negb (k =? 6); pv_hist_inner_first := false; pv_found_stale := negb (k =? 7); pv_cond_bare := negb (k =? 9);
+     pv_hist_covered := negb (k =? 6); pv_hist_inner_first := false; pv_found_stale := negb (k =? 7); pv_cond_bare := negb (k =? 9); pv_completion_guarded := negb (k =? 10);
      pv_trie := {| tv_star_in_list_ignored := negb (k =? 5) |} |}.
 
 Ltac holds := unfold behaviour_preserved; vm_compute; intros _ _; reflexivity.
@@ -652,7 +681,7 @@ Proof.
     destruct (negb (intersects es (fs_children (st c i))) && _); [|reflexivity].
     destruct (pv_deep_unnegated pv).
     + destruct (intersects _ _); [|reflexivity]. destruct (filter _ _); reflexivity.
-    + destruct (negb _); reflexivity.
+    + destruct (negb (pv_completion_guarded pv) || negb _); reflexivity.
   - (* shallow history *)
     destruct (negb (intersects (pcompl pv c i) hist) && _).
     + destruct (find _ _); reflexivity.
